@@ -7,6 +7,7 @@ import (
 	"sort"
 	"testing"
 
+	"github.com/RoaringBitmap/roaring/v2"
 	segment "github.com/blevesearch/scorch_segment_api/v2"
 	zap "github.com/blevesearch/zapx/v16"
 	"pgregory.net/rapid"
@@ -27,6 +28,7 @@ func removeFile(path string) {
 type dvVisit struct {
 	Seg int    `json:"seg"` // 0 = A, 1 = B
 	Doc uint64 `json:"doc"`
+	St  int    `json:"st,omitempty"` // which of the two visit states is used
 }
 
 type dvCase struct {
@@ -37,6 +39,8 @@ type dvCase struct {
 	DVChunk    uint32   `json:"dvChunk"` // LegacyChunkMode for writer and reader
 	Fields     []string `json:"fields"`  // field list handed to VisitDocValues
 	FreshState bool     `json:"freshState"`
+	MergeFirst bool     `json:"mergeFirst"` // both segments serve as merge inputs before the scripted visits
+	TwoStates  bool     `json:"twoStates"`  // the script alternates between two private visit states
 	Script     []dvVisit
 }
 
@@ -72,6 +76,8 @@ func genDVCase(t *rapid.T) dvCase {
 		c.Fields = rapid.SliceOfNDistinct(rapid.SampledFrom(pool), 1, len(pool), rapid.ID[string]).Draw(t, "fields")
 	}
 	c.FreshState = gen.Chance(t, "freshState", 20)
+	c.MergeFirst = gen.Chance(t, "mergeFirst", 35)
+	c.TwoStates = gen.Chance(t, "twoStates", 40)
 	na, nb := c.A.NumDocs(), c.B.NumDocs()
 	n := rapid.IntRange(1, 40).Draw(t, "nVisits")
 	for i := 0; i < n; i++ {
@@ -81,6 +87,9 @@ func genDVCase(t *rapid.T) dvCase {
 			v.Doc = uint64(rapid.IntRange(0, nb-1).Draw(t, fmt.Sprintf("v%ddocB", i)))
 		} else {
 			v.Doc = uint64(rapid.IntRange(0, na-1).Draw(t, fmt.Sprintf("v%ddocA", i)))
+		}
+		if c.TwoStates {
+			v.St = rapid.IntRange(0, 1).Draw(t, fmt.Sprintf("v%dst", i))
 		}
 		c.Script = append(c.Script, v)
 	}
@@ -117,11 +126,23 @@ func runDVCase(c dvCase) *Violation {
 			return violation(prop, "dv/sequential-mismatch", "segment %d: %s", i, d)
 		}
 	}
-	// scripted visits with a shared state
+	if c.MergeFirst {
+		// serving as a merge input must not change what later visits see
+		if err := drive.Safe(func() error {
+			path := drive.NewPath("c03m")
+			defer os.Remove(path)
+			_, _, e := drive.Merge(segs[:], []*roaring.Bitmap{nil, nil}, path, c.ChunkMode, nil, nil)
+			return e
+		}); err != nil {
+			return violation(prop, "dv/merge-error", "merging the two segments: %v", err)
+		}
+	}
+	// scripted visits with a shared state (or two private ones used alternately)
 	var v *Violation
 	err := drive.Safe(func() error {
-		var st segment.DocVisitState
+		var states [2]segment.DocVisitState
 		for step, vis := range c.Script {
+			st := states[vis.St&1]
 			dvs := segs[vis.Seg].(segment.DocValueVisitable)
 			got := map[string][]string{}
 			if c.FreshState {
@@ -134,6 +155,7 @@ func runDVCase(c dvCase) *Violation {
 			if err != nil {
 				return fmt.Errorf("step %d VisitDocValues(seg %d, doc %d): %w", step, vis.Seg, vis.Doc, err)
 			}
+			states[vis.St&1] = st
 			want := map[string][]string{}
 			for _, f := range c.Fields {
 				if terms := wants[vis.Seg].DV[f][vis.Doc]; len(terms) > 0 {
